@@ -97,6 +97,14 @@ func C01(r *report.Report, tier string) {
 			jobs = append(jobs, crashArg{Prop: "C01", DiskSize: 3000, Ops: h, Cap: cap, Eager: eager, Fresh: true})
 		}
 	}
+	// a 530-block file freed by several background shrinker transactions (images cut between them)
+	maxImg := 120
+	if tier == "thorough" {
+		maxImg = 0
+	}
+	for _, h := range [][]fsx.Op{{{K: "REMOVE", H: "root", N: "big"}}, {{K: "SETATTR", H: "root/big", Size: 3 * 4096}, {K: "CREATE", H: "root", N: "n"}}} {
+		jobs = append(jobs, crashArg{Prop: "C01", DiskSize: 3000, Setup: big530Setup, Ops: h, Cap: 64, MaxImages: maxImg, Probe: &fsx.Probe{Full: 4 << 20}})
+	}
 	runCrashJobs(r, jobs, map[string]bool{"C01": true})
 	r.Add("states", int64(r.NDistinct()))
 	r.Extra["bounds"] = map[string]int{"depth": depth, "loss_product_cap": cap}
